@@ -8,7 +8,7 @@
    [in_step] = the hypotheses under which the calendar is in lock-step (C04): ITAG is the day of
    the year of BEGINN and every year is loaded with all its days. *)
 From Coq Require Import ZArith List Bool Sorted.
-From Hermes Require Import Util Calendar DateModel CtrlModel CtrlProofs.
+From Hermes Require Import Util Calendar DateModel CtrlModel CtrlProofs OutFmtModel OutFmtProofs.
 Import ListNotations.
 Open Scope Z_scope.
 
@@ -105,6 +105,34 @@ Theorem C05_unsupported_kind : forall (A : Type) (render : vref -> A) a b,
   write_line false render (a ++ ROther :: b) = None.
 Proof. exact @unsupported_loses_field. Qed.
 
+(* header lines.  CSV style: a header line of 1..n cells has n fields (n = number of columns), so for
+   every configuration that passes [oconfig_ok] — re-proved for the built-in and the shipped ones on
+   every run, gen/OutFmtCheck.v — every header line and EVERY record has exactly n fields *)
+Theorem C05_header_count_csv : forall ncells ncols, 1 <= ncells <= ncols -> csv_header_fields ncells ncols = ncols.
+Proof. exact csv_header_count. Qed.
+
+Theorem C05_header_and_record_counts : forall o : oconfig,
+  oconfig_ok o = true ->
+  let cols := map col_of (o_cols o) in
+  let n := List.length cols in
+  (forall cells, In cells (o_heads o) -> csv_header_fields (Z.of_nat (List.length cells)) (Z.of_nat n) = Z.of_nat n) /\
+  (forall (A : Type) (render : vref -> A), exists fs, write_line true render (map c_ref cols) = Some fs /\ List.length fs = n).
+Proof. exact csv_counts_lemma. Qed.
+
+(* the limiting case: more header cells than columns gives a header line longer than the records *)
+Theorem C05_header_too_many_cells : forall ncells ncols, 0 <= ncols < ncells -> csv_header_fields ncells ncols = ncells.
+Proof. exact csv_header_too_many. Qed.
+
+(* fixed-width style: with cells in order inside the columns, every header cell starts exactly at the
+   first character of its first data column and the header line is not longer than a record line *)
+Theorem C05_header_cells_aligned : forall widths cells,
+  Forall (fun w => 0 <= w) widths -> cells <> [] ->
+  hcells_ok (Z.of_nat (List.length widths)) 0 cells = true ->
+  hermes_header widths cells =
+    (arr widths (Z.to_nat (h_end (List.last cells (mkhc 0 0 0 0)))), map (fun c => arr widths (Z.to_nat (h_start c - 1))) cells) /\
+  fst (hermes_header widths cells) <= record_width widths.
+Proof. exact hermes_header_aligned_lemma. Qed.
+
 (* non-vacuity: a concrete run satisfying every hypothesis bundle: 28 Dec 1983 .. 5 Jan 1985,
    interval 7, annual date 1 Mar (end year 1985), rotation harvests 28.12.1983, 1.8.1984, 1.9.1985 *)
 Example C05_nonvacuous :
@@ -137,3 +165,7 @@ Print Assumptions C05_field_count.
 Print Assumptions C05_supported_kinds.
 Print Assumptions C05_unknown_variable.
 Print Assumptions C05_unsupported_kind.
+Print Assumptions C05_header_count_csv.
+Print Assumptions C05_header_and_record_counts.
+Print Assumptions C05_header_too_many_cells.
+Print Assumptions C05_header_cells_aligned.
